@@ -564,6 +564,10 @@ func (e *Engine) structural(fn *ssa.Function, dir string) *Obligation {
 		// the function is not part of a call cycle (calls + function values it creates), so it needs no measure;
 		// recursion without a `decreases` clause fails this obligation
 		reach := map[*ssa.Function]bool{}
+		hasMeasure := false
+		if ct := e.contractFor(fn); ct != nil && ct.Decreases != nil {
+			hasMeasure = true
+		}
 		var visit func(g *ssa.Function)
 		visit = func(g *ssa.Function) {
 			for _, b := range g.Blocks {
@@ -589,6 +593,9 @@ func (e *Engine) structural(fn *ssa.Function, dir string) *Obligation {
 						if !e.inModule(t) && t.Synthetic == "" {
 							continue
 						}
+						if t == fn && g == fn && hasMeasure {
+							continue // direct recursion under a `decreases` measure (checked at the call site)
+						}
 						if !reach[t] {
 							reach[t] = true
 							visit(t)
@@ -604,6 +611,9 @@ func (e *Engine) structural(fn *ssa.Function, dir string) *Obligation {
 		}
 		o.Status = "proved"
 		o.Detail = "not on a call cycle"
+		if hasMeasure {
+			o.Detail = "only direct recursion, under the decreases measure checked at the recursive call"
+		}
 	case len(f) == 1 && f[0] == "no-channel-ops":
 		// the function synchronises only through the mutex / errgroup named in its contract: no channel send,
 		// receive, select or close — each of which could block a path that the error-propagation obligations assume returns
